@@ -1025,7 +1025,7 @@ fn bfs(ctx: &Ctx, cfg: &dyn DynCfg, rc: bool, mode: Mode, sh: &Shared) -> JobSta
             {
                 st.states += 1;
                 st.longest_history = st.longest_history.max(h.len());
-                if st.states % 97 == 5 {
+                if r.sampled.len() >= 2 && st.states % 37 == 5 {
                     let mut g = sh.samples.lock().unwrap();
                     if g.len() < 12 {
                         g.push(format!("{name}/rc={}/{}: {}", rc as u8, mode.tag(), r.summary));
@@ -1195,9 +1195,10 @@ fn main() {
     let mut plans: Vec<Plan> = vec![];
     let only = ctx.opt("cfg").map(|s| s.to_string());
     if ctx.quick() {
-        // one configuration per `duplexing_*` code path of the circuit challenger (ext/base ×
-        // Poseidon2/Poseidon1), both recomposition back-ends, the quintic pairing, and WIDTH 8
-        for (n, rc) in [
+        // every configuration with the recompose table on; the table off for one configuration per
+        // `duplexing_*` code path of the circuit challenger (ext/base × Poseidon2/Poseidon1)
+        // (the first seven cover every code path; the rest are the remaining field/permutation twins)
+        for (n, rc, deep) in [
             ("bb-d4-p2", true),
             ("bb-d4-p2", false),
             ("kb-d1-p2", true),
@@ -1205,8 +1206,19 @@ fn main() {
             ("kb-d1q-p2", true),
             ("gl-d2-p1", true),
             ("gl-d2-p2", false),
-        ] {
-            let deep = rc && matches!(n, "bb-d4-p2" | "kb-d1-p2");
+            ("kb-d4-p2", true),
+            ("bb-d1-p2", true),
+            ("bb-d4-p1", true),
+            ("bb-d4-p1", false),
+            ("kb-d1-p2", false),
+            ("gl-d2-p2", true),
+            ("bb-d1-p1", true),
+            ("kb-d4-p1", true),
+        ]
+        .into_iter()
+        .enumerate()
+        .map(|(i, (n, rc))| (n, rc, i < 7))
+        {
             plans.push(Plan { cfg: by_name(n).unwrap(), rc, modes: all_modes.clone(), undedup_depth: if deep { 4 } else { 3 } });
         }
     } else {
@@ -1312,6 +1324,8 @@ fn main() {
     let samples = sh.samples.lock().unwrap().clone();
     let cov = json!({
         "states": states,
+        "bfs_canonical_states": bfs_stats.iter().map(|s| s.states).sum::<u64>(),
+        "undedup_histories": und_stats.iter().map(|s| s.states).sum::<u64>(),
         "transitions": transitions,
         "traces_validated_against_impl": transitions,
         "samples": samples,
